@@ -89,7 +89,7 @@ Definition core (l : L) :=
 Ltac hdr_unfold :=
   cbv beta iota delta [irun ifun ibind iret ilift iget iset ipart ifail ifault ithrow iguard iguard_idx ireturn
                        bind ret fail part fault_ expect next next_opt peek peek_n peek_ahead advance bump
-                       slice slice_skip pos remaining commit apos rest pre tokrev
+                       slice slice_skip pos addr remaining commit apos rest pre tokrev
                        g_headers_v_arr g_headers_v_num_headers g_headers_m1 g_headers_v_iter
                        g_headers_m2 g_headers_m3 g_headers_m4 g_headers_m5 g_headers_m6 g_headers_m7
                        set_g_headers_v_arr set_g_headers_v_num_headers set_g_headers_m1 set_g_headers_v_iter
@@ -99,7 +99,7 @@ Ltac hdr_unfold :=
 Ltac hdr_unfold_in H :=
   cbv beta iota delta [irun ifun ibind iret ilift iget iset ipart ifail ifault ithrow iguard iguard_idx ireturn
                        bind ret fail part fault_ expect next next_opt peek peek_n peek_ahead advance bump
-                       slice slice_skip pos remaining commit apos rest pre tokrev
+                       slice slice_skip pos addr remaining commit apos rest pre tokrev
                        g_headers_v_arr g_headers_v_num_headers g_headers_m1 g_headers_v_iter
                        g_headers_m2 g_headers_m3 g_headers_m4 g_headers_m5 g_headers_m6 g_headers_m7
                        set_g_headers_v_arr set_g_headers_v_num_headers set_g_headers_m1 set_g_headers_v_iter
